@@ -64,11 +64,12 @@ def simple_cfg_text(spec):
         if lhs not in alts:
             order.append(lhs)
             alts[lhs] = []
-        alts[lhs].append(''.join(n for _, n in rhs) or 'ε')
+        alts[lhs].append(''.join(n for _, n in rhs) or spec.get('eps') or 'ε')
     if spec['S'] in order:
         order.remove(spec['S'])
         order.insert(0, spec['S'])
-    return '\n'.join('%s -> %s' % (A, ' | '.join(alts[A])) for A in order)
+    head = ['epsilon = %s' % spec['eps']] if spec.get('eps') else []
+    return '\n'.join(head + ['%s -> %s' % (A, ' | '.join(alts[A])) for A in order])
 
 
 def mutate_dfa_spec(rng, s):
@@ -323,6 +324,9 @@ class Nfa2Dfa:
                 out.append(DA.print_dfa(enc.build_dfa(mutate_dfa_spec(rng, enc.dfa_to_spec(A)), check=False)))
             qs = sorted(A.Q)
             out.append(own + '\n%s %s %s' % (rng.choice(qs), rng.choice(qs), inst['N']['eps']))      # extra epsilon edge
+            for e in ('_', 'ε'):                                                                   # ... in either spelling
+                if e != inst['N']['eps'] and e not in inst['N']['Sigma']:
+                    out.append(own + '\n%s %s %s' % (rng.choice(qs), rng.choice(qs), e))
             lines = own.split('\n')
             if len(lines) > 5:
                 out.append('\n'.join(lines[:-1]))                                                  # drop a transition line
@@ -375,7 +379,8 @@ class Dfa2Regexp:
 
     def instance(self, rng):
         return {'D': gen.random_dfa(rng, 3, rng.choice([['a', 'b'], ['a'], ['a', 'b', 'c'], ['a', 'b'], ['0', '1']]),
-                                    rng.choice([lambda i: 'q%d' % i, lambda i: 'ABCDEFGH'[i]])), 'len': rng.choice([3, 4, 5])}
+                                    rng.choice([lambda i: 'q%d' % i, lambda i: 'ABCDEFGH'[i], lambda i: ['start', 'accept', 'reject'][i],
+                                                lambda i: ['accept', 'start1', 'start'][i]])), 'len': rng.choice([3, 4, 5])}
 
     def own(self, inst, sc):
         return make_notebook.apply_command('dfa2regexp', [sc.file(dfa_text(inst['D']), 'dfa')])
@@ -468,13 +473,64 @@ class Cyk:
         return {'op': 'chk_cyk', 'G': inst['G'], 'w': list(inst['w']), 'answer': ans}
 
 
+def random_order_derivation(rng, G, w):
+    """a derivation of w in the CNF grammar G (spec) that rewrites a randomly chosen variable occurrence at every step"""
+    rules = [(l, [tuple(x) for x in r]) for l, _, r in G['R']]
+
+    def derives(A, u, memo={}):
+        key = (A, u)
+        if key not in memo:
+            memo[key] = oracles.cfg_accepts([(l, r) for l, r in rules], A, u)
+        return memo[key]
+
+    def tree(A, u):
+        if len(u) == 1 and (A, [('t', u)]) in rules:
+            return (A, [('t', u)])
+        opts = []
+        for l, r in rules:
+            if l == A and len(r) == 2 and r[0][0] == 'v' and r[1][0] == 'v':
+                for k in range(1, len(u)):
+                    if derives(r[0][1], u[:k]) and derives(r[1][1], u[k:]):
+                        opts.append((r[0][1], u[:k], r[1][1], u[k:]))
+        if not opts:
+            return None
+        B, u1, C, u2 = rng.choice(opts)
+        t1, t2 = tree(B, u1), tree(C, u2)
+        return None if t1 is None or t2 is None else (A, [t1, t2])
+    if not w:
+        return None
+    root = tree(G['S'], w)
+    if root is None:
+        return None
+    form = [root]
+    out = [G['S']]
+    while any(isinstance(x, tuple) and x[0] != 't' for x in form):
+        idx = [i for i, x in enumerate(form) if x[0] != 't']
+        i = rng.choice(idx)
+        form = form[:i] + list(form[i][1]) + form[i + 1:]
+        out.append(''.join(x[1] if x[0] == 't' else x[0] for x in form))
+    return ' => '.join(out)
+
+
 class Derivation:
     def __init__(self, kind):
         self.kind = kind
         self.name = 'cfg_%s_derivation' % kind
 
     def instance(self, rng):
-        c = Cyk().instance(rng)
+        if rng.random() < 0.3:
+            # sentential forms X Y X: the rightmost (leftmost) variable also occurs elsewhere in the form
+            X, Y = rng.sample(['A', 'B', 'C'], 2)
+            a, b = rng.sample(['a', 'b', 'c'], 2)
+            shape = rng.choice([[('S', [X, 'T']), ('T', [Y, X])], [('S', ['T', X]), ('T', [X, Y])], [('S', ['T', 'U']), ('T', [X, Y]), ('U', [X, Y])]])
+            R = [[l, i, [['v', v] for v in r]] for i, (l, r) in enumerate(shape)]
+            R += [[X, len(R), [['t', a]]], [Y, len(R) + 1, [['t', b]]]]
+            if rng.random() < 0.5:
+                R.append([X, len(R), [['v', Y], ['v', Y]]])
+            V = ['S'] + sorted({l for l, _, _ in R} - {'S'})
+            c = {'G': {'V': V, 'Sigma': sorted({a, b}), 'R': R, 'S': 'S'}}
+        else:
+            c = Cyk().instance(rng)
         if c is None:
             return None
         G = c['G']
@@ -497,6 +553,10 @@ class Derivation:
             s2[i], s2[i - 1] = s2[i - 1], s2[i]
             out.append(' => '.join(s2))
         out.append(' => '.join(steps[:-1]))
+        for _ in range(6):     # genuine derivations that expand the variables in a random order
+            d = random_order_derivation(rng, inst['G'], inst['w'])
+            if d:
+                out.append(d)
         other = 'rightmost' if self.kind == 'leftmost' else 'leftmost'
         sc = Scratch()
         try:        # a genuine derivation of the OTHER kind
@@ -539,6 +599,8 @@ class Chomsky:
             if not all(any(oracles.cfg_accepts(rules, A, w) for w in gen.all_words(G['Sigma'], 3) if w) for A in G['V']):
                 continue
             free = [c for c in 'TUVWXYZ' if c not in G['V']]
+            if rng.random() < 0.2:      # the exercise file declares its own epsilon marker
+                G['eps'] = rng.choice([e for e in 'ez_' if e not in G['Sigma']])
             return {'G': G, 'start': free[0], 'len': 3}
         return None
 
